@@ -4,7 +4,7 @@
 // documents and to state expected results.  Textually parallel to verus/prelude.rs (layout_*).
 #![allow(dead_code)]
 
-pub const MAXB: usize = 40; // capacity of a flat document buffer
+pub const MAXB: usize = 48; // capacity of a flat document buffer
 pub const PAYMAX: usize = 24; // capacity of one item's payload
 
 pub const SCALAR: u32 = 0x2000_0000;
@@ -386,3 +386,46 @@ pub fn sc_cmp(a: &Sc, b: &Sc) -> i8 {
         _ => 0,
     }
 }
+
+// ---------------------------------------------------------------------------------------------
+// Concrete-shape / symbolic-content constructors: every constructor has a CONCRETE payload width, so that all
+// offsets of a document built from them are constants for CBMC (cheap), while the bytes stay symbolic.
+fn mk(kind: u8, num: i32, s: [u8; 2], slen: usize, word: u32, p: &[u8]) -> Sc {
+    let mut pay = [0u8; PAYMAX];
+    let mut i = 0;
+    while i < p.len() { pay[i] = p[i]; i += 1; }
+    Sc { kind, num, s, slen, it: It { word, pay, plen: p.len() } }
+}
+pub fn sc_null() -> Sc { mk(0, 0, [0; 2], 0, T_NULL, &[]) }
+pub fn sc_bool() -> Sc { if kani::any() { mk(1, 0, [0; 2], 0, T_TRUE, &[]) } else { mk(2, 0, [0; 2], 0, T_FALSE, &[]) } }
+/// width 0: null | true | false
+pub fn sc_w0() -> Sc { if kani::any() { sc_null() } else { sc_bool() } }
+/// width 2: Int64 in i8 range | UInt64 in u8 range (non-zero)
+pub fn sc_num2() -> Sc {
+    let v: u8 = kani::any();
+    kani::assume(v != 0);
+    if kani::any() { mk(3, (v as i8) as i32, [0; 2], 0, T_NUMBER | 2, &[0x40, v]) } else { mk(3, v as i32, [0; 2], 0, T_NUMBER | 2, &[0x50, v]) }
+}
+/// width 9: Float64 with value 1.0 .. 4.0 (exactly representable small integers: 1,2,3,4)
+pub fn sc_float9() -> Sc {
+    let k: u8 = kani::any();
+    kani::assume(k < 4);
+    // 1.0=3FF0.., 2.0=4000.., 3.0=4008.., 4.0=4010..
+    let (b1, b2, v) = match k { 0 => (0x3F, 0xF0, 1), 1 => (0x40, 0x00, 2), 2 => (0x40, 0x08, 3), _ => (0x40, 0x10, 4) };
+    mk(3, v, [0; 2], 0, T_NUMBER | 9, &[0x60, b1, b2, 0, 0, 0, 0, 0, 0])
+}
+pub fn sc_str0() -> Sc { mk(4, 0, [0; 2], 0, T_STRING, &[]) }
+pub fn sc_str1() -> Sc { let c: u8 = kani::any(); kani::assume(c < 0x80); mk(4, 0, [c, 0], 1, T_STRING | 1, &[c]) }
+pub fn sc_str2() -> Sc {
+    let c: u8 = kani::any(); let d: u8 = kani::any();
+    kani::assume(c < 0x80 && d < 0x80);
+    mk(4, 0, [c, d], 2, T_STRING | 2, &[c, d])
+}
+/// width 2, any type: number or 2-byte string
+pub fn sc_w2() -> Sc { if kani::any() { sc_num2() } else { sc_str2() } }
+/// key items of concrete width
+pub fn key1() -> It { sc_str1().it }
+pub fn key2() -> It { sc_str2().it }
+/// nested array with exactly the given elements, as a CONTAINER element
+pub fn it_array(items: &[It]) -> It { It::from_parts(T_CONTAINER, layout_array(items).as_slice()) }
+pub fn it_object(keys: &[It], vals: &[It]) -> It { It::from_parts(T_CONTAINER, layout_object(keys, vals).as_slice()) }
